@@ -26,7 +26,7 @@ func init() {
 		},
 		Run:            c04Run,
 		Floor:          func(tier string) int { return 4000 },
-		Rule:           "MatMul over operand ranks 1..5 on both sides, extents {1,2,3,5}, broadcastable and non-broadcastable batch shapes, vector operands with batches; Gemm over the 4 transpose combinations x alpha, beta in {0, 1, -1, 0.5, 2.5, random} (attributes given or defaulted) x C in {absent, skipped by \"\", scalar, (N), (1,N), (M,1), (M,N), incompatible}; LinearRegressor over targets 1..4 x features 1..5 x intercepts present/absent; Scaler over feature counts with scalar or per-feature offset/scale; asymmetric integer-and-fraction data so that transposition and layout mistakes change the result; operator API plus every 4th case through Run. float32 MUST_EQUAL within the dot-product rounding bound 2(K+4)u*sum|a_i b_i| of the float64 reference; other accepted element types MAY_REFUSE; inner-dimension, batch or bias mismatch MUST_ERROR. Non-trivial = M, N, K not all equal to 1 (or invalid); distinct = (operator, dtype, shapes, attributes)." + ruleShared + ruleReused,
+		Rule:           "(Scaler attribute lists of every wrong length and identity values; LinearRegressor without targets) MatMul over operand ranks 1..5 on both sides, extents {1,2,3,5}, broadcastable and non-broadcastable batch shapes, vector operands with batches; Gemm over the 4 transpose combinations x alpha, beta in {0, 1, -1, 0.5, 2.5, random} (attributes given or defaulted) x C in {absent, skipped by \"\", scalar, (N), (1,N), (M,1), (M,N), incompatible}; LinearRegressor over targets 1..4 x features 1..5 x intercepts present/absent; Scaler over feature counts with scalar or per-feature offset/scale; asymmetric integer-and-fraction data so that transposition and layout mistakes change the result; operator API plus every 4th case through Run. float32 MUST_EQUAL within the dot-product rounding bound 2(K+4)u*sum|a_i b_i| of the float64 reference; other accepted element types MAY_REFUSE; inner-dimension, batch or bias mismatch MUST_ERROR. Non-trivial = M, N, K not all equal to 1 (or invalid); distinct = (operator, dtype, shapes, attributes)." + ruleShared + ruleReused,
 		RaceInThorough: true,
 		Technique:      "runtime monitoring: differential execution against a float64 reference with a sound, order-independent dot-product error bound",
 		Assumptions:    []string{"forward error bound gamma_K doubled (valid for any summation order, blocking or FMA use)", "values bounded (|x| <= 16) so that no intermediate overflows"},
